@@ -404,6 +404,45 @@ def link_witness(e):
     return False
 
 
+def _delivered_ids(args, kw):
+    ids = set()
+    stack = list(args) + list(kw.values())
+    n = 0
+    while stack and n < 20000:
+        o = stack.pop()
+        n += 1
+        ids.add(id(o))
+        if isinstance(o, (list, tuple, set, frozenset)):
+            stack.extend(o)
+        elif isinstance(o, dict):
+            stack.extend(o.keys())
+            stack.extend(o.values())
+    return ids
+
+
+def object_attr_witness(e, args, kw):
+    """AttributeError on an object the package built itself (not one the caller delivered, nor an element of
+    one), raised by an attribute access written in package code: the package handed one of its own functions
+    something that function cannot use - a code path failing with AttributeError whatever the caller does.
+    Deliberately narrow: a missing attribute on anything the caller passed in is never reported (it may be the
+    caller's misuse), nor is one raised inside a dependency."""
+    if not isinstance(e, AttributeError) or _MODATTR.search(str(e)):
+        return False
+    if getattr(e, 'name', None) is None:
+        return False
+    tb = e.__traceback__
+    last = None
+    while tb is not None:
+        last = tb
+        tb = tb.tb_next
+    if last is None or 'kneeliverse' not in last.tb_frame.f_code.co_filename:
+        return False
+    obj = getattr(e, 'obj', None)
+    if obj is None or isinstance(obj, (types.ModuleType, type)):
+        return False
+    return id(obj) not in _delivered_ids(args, kw)
+
+
 def innermost_package_frame(e):
     tb = e.__traceback__
     site = None
